@@ -13,7 +13,7 @@ K = lambda name, file, fn: dict(name=name, target=("oxidize-pdf-core/src/" + fil
 
 PROPS = {
     "C01": dict(
-        verus=["tokenizer", "runlength", "gss", "xrefstream", "glyf", "guards", "predictor", "pngrows", "flatten", "bounded", "asciihex", "ascii85", "rotate", "pngunfilter"],
+        verus=["tokenizer", "runlength", "gss", "xrefstream", "glyf", "guards", "predictor", "pngrows", "flatten", "bounded", "asciihex", "ascii85", "rotate", "pngunfilter", "cmaprange"],
         standins=["a85hex"],
         kani=[K("c01_hex_digit_value", "parser/filters.rs", "hex_digit_value"),
               K("c01_calculate_offset_9_bytes_no_panic", "text/cmap.rs", "calculate_offset")],
@@ -107,6 +107,7 @@ PROPS = {
         not_decided="AES-CBC/PKCS#7 (aes, cbc crates), MD5/SHA (md5, sha2 crates), Algorithms 2-10 glue pending",
     ),
     "C26": dict(
+        verus=["cmaprange"],
         kani=[K(f"c26_increment_be_{n}", "text/cmap.rs", "increment_be") for n in (1, 2, 3, 4)] +
              [K(f"c26_calculate_offset_{n}", "text/cmap.rs", "calculate_offset") for n in (1, 2, 3, 4)],
         not_decided="CMap tokenizer/parser, bfrange array form, code-space rejection, ToUnicode builder round trip",
